@@ -58,7 +58,7 @@ Definition task_persisted : list bytes := map bs
 Definition task_runtime : list bytes := map bs ["state"]%string.
 Definition change_persisted : list bytes := map bs
   ["id"; "kind"; "summary"; "status"; "clean"; "data"; "taskIDs"; "lastRecordedNoticeStatus"; "spawnTime"; "readyTime"]%string.
-Definition change_runtime : list bytes := map bs ["state"; "ready"; "lastObservedStatus"]%string.
+Definition change_runtime : list bytes := map bs ["state"; "ready"; "lastObservedStatus"; "aborting"]%string.
 Definition notice_persisted : list bytes := map bs
   ["id"; "userID"; "noticeType"; "key"; "firstOccurred"; "lastOccurred"; "lastRepeated"; "occurrences"; "lastData";
    "repeatAfter"; "expireAfter"]%string.
